@@ -58,7 +58,7 @@ def classify(o):
 
 
 SHAPES = {
-    "unit_struct": "struct S;", "tuple0": "struct S();", "tuple1": "struct S({F}i32);", "tuple2": "struct S({F}i32, String);",
+    "unit_struct": "struct S;", "tuple0": "struct S();", "tuple1": "struct S({F}i32);", "tuple1_unit": "struct S({F}());", "tuple2": "struct S({F}i32, String);",
     "named0": "struct S {{}}", "named1": "struct S {{ {F}a: i32 }}", "named2": "struct S {{ {F}a: i32, b: String }}",
     "enum_empty": "enum S {{}}", "enum_unit": "enum S {{ {V}A, B }}", "enum_tuple": "enum S {{ {V}A({F}i32), B(String) }}",
     "enum_named": "enum S {{ {V}A {{ {F}x: i32 }}, B {{ y: u8 }} }}", "enum_mixed": "enum S {{ {V}A, B({F}i32, u8), C {{ z: String }} }}",
@@ -75,7 +75,7 @@ def body_text(body, attr):
         "unknown_ident": f"#[{a}(frobnicate)]", "int_literal": f"#[{a}(42)]", "string_literal": f'#[{a}("text")]',
         "eq_string": f'#[{a} = "x"]', "nested_list": f"#[{a}(owned(i32), ref(u8))]", "nested_literal": f"#[{a}(types(42))]",
         "legacy_types_int": f'#[{a}(types(i32, "&str", 7))]', "legacy_fmt": f'#[{a}(fmt = "{{}}", a)]', "path": f"#[{a}(a::b::c)]",
-        "not_wrapped": f"#[{a}(not(source))]", "type_list": f"#[{a}(i32, String, Vec<u8>)]", "ref_list": f"#[{a}(ref, ref_mut, owned)]",
+        "not_wrapped": f"#[{a}(not(source))]", "type_list": f"#[{a}(i32, String, Vec<u8>)]", "unit_type": f"#[{a}(())]", "tuple_type": f"#[{a}((i32, u8), (u8,))]", "ref_list": f"#[{a}(ref, ref_mut, owned)]",
         "duplicate_attr": f"#[{a}(ignore)] #[{a}(ignore)]", "trailing_comma": f"#[{a}(forward,)]",
         "fmt_literal": f'#[{a}("{{}} {{_0:?}}", 1)]', "fmt_bad_literal": f'#[{a}("{{:}}}}{{{{ {{ }}")]',
         "fmt_unicode": f'#[{a}("é{{€}}\U0001F600{{:\U0001F600<5}}")]', "fmt_huge_number": f'#[{a}("{{:99999999999999999999999}}{{340282366920938463463374607431768211456}}")]',
